@@ -25,6 +25,7 @@ ok_demo_fail=$(echo "$r2" | grep -c "^test .*FAILED")
 ok_suite=$(echo "$r3" | grep -c "^test .*FAILED")
 echo "confirm: demo-alone-failures=$ok_demo_pass demo+defect-failures=$ok_demo_fail defect-only-failures=$ok_suite"
 # now against the checks
+[ -n "${CONFIRM_ONLY:-}" ] && exit 0
 cd /repo && git diff --quiet || { echo "/repo dirty"; exit 2; }
 if ! git apply --check $out/patch.diff 2>/dev/null; then echo "patch does not apply to current /repo HEAD (3-way)"; git apply -3 $out/patch.diff || { echo "cannot apply"; git checkout -- .; exit 3; }; else git apply $out/patch.diff; fi
 cp /verif/evidence/$prop.json /tmp/ev_$prop.json 2>/dev/null
